@@ -51,6 +51,9 @@ type c17Case struct {
 	// before step DMA-1, so the instructions after it run while a transfer is in flight; such a program holds
 	// no PUSH and no store, so OAM must end up equal to that second source.
 	DMA int `json:"dma,omitempty"`
+	// Regs (scenario "off"): stores to LCD registers (STAT, SCY, SCX, LY, LYC, palettes, WY, WX) made right after
+	// the LCD has been switched off - none of them may arm anything.
+	Regs []cpuPoke `json:"regs,omitempty"`
 }
 
 // pointer pair of each generated instruction form: 0 BC, 1 DE, 2 HL, 3 SP
@@ -94,6 +97,11 @@ func c17Validate(cas *c17Case) error {
 	}
 	if len(cas.Steps) > 256 {
 		return fmt.Errorf("too many steps")
+	}
+	for _, r := range cas.Regs {
+		if r.A < 0xff41 || r.A > 0xff4b || r.A == 0xff46 {
+			return fmt.Errorf("register store to %04x is outside the domain", r.A)
+		}
 	}
 	if cas.DMA < 0 || cas.DMA > len(cas.Steps)+1 {
 		return fmt.Errorf("dma step %d", cas.DMA)
@@ -269,6 +277,11 @@ func c17Exec(cas *c17Case, n int) (out c17Outcome) {
 		}
 		m.Mp.Write(0xff40, 0x11)
 		ref.SwitchOff()
+	}
+	if cas.Scen == "off" {
+		for _, r := range cas.Regs {
+			m.Mp.Write(r.A, r.V)
+		}
 	}
 	start := m.CPU.VerifGet()
 	start.PC = 0xc000
@@ -463,6 +476,102 @@ func c17Run(cas c17Case) (sig string, err error) {
 	return sig, fmt.Errorf("%s: %d OAM byte(s) altered, %s; first FE%02X = %02x, allowed %02x", scen, len(out.bad), where, o, out.got[o], out.allowed[o])
 }
 
+type c17Early struct {
+	Op    uint8  `json:"op"`
+	Tick  int    `json:"tick"`
+	D     int    `json:"d"`
+	After string `json:"after"` // "on": the LCD stays on; "off": it is switched off right after the instruction
+	P     uint16 `json:"p"`
+	Line  int    `json:"line"`
+}
+
+func c17RunEarly(c c17Early) (sig string, err error) {
+	defer vf.Recover(&sig, &err)
+	if _, ok := c17Forms[c.Op]; !ok || c17IsPush(c.Op) || c17IsStore(c.Op) || c.Tick < 5 || c.Tick > 18 || c.D < 1 || c.D > 5 || c.Tick-c.D < 0 || c.P < 0xfe00 || c.P > 0xfe9f || c.Line < 1 || c.Line > 142 {
+		return "invalid-case", fmt.Errorf("case outside the domain")
+	}
+	// the rows the OAM bug may touch (the one being scanned and its two predecessors) must still be ahead of the copy
+	if (c.Tick-2)*8 < c.D+8+8 {
+		return "", nil
+	}
+	m := machine.New(c17ROM, nil, false)
+	m.I.Disable()
+	m.Mp.Write(0xffff, 0)
+	m.Mp.Write(0xff40, 0x11)
+	var src [160]uint8
+	for i := range src {
+		src[i] = uint8(i*13 + 7)
+		m.Mp.Write(0xd100+uint16(i), src[i])
+		m.Mp.Write(0xd000+uint16(i), ^src[i])
+	}
+	m.Mp.Write(0xff46, 0xd0)
+	for i := 0; i < 170; i++ {
+		m.HW()
+	}
+	for i := 0; i < 8; i++ {
+		m.Mp.Write(0xc000+uint16(i), 0x00)
+	}
+	m.Mp.Write(0xc000, c.Op)
+	m.Mp.Write(0xc001, 0x18)
+	m.Mp.Write(0xc002, 0xfe) // JR -2
+	var ref c13LCD
+	m.Mp.Write(0xff40, 0x91)
+	ref.SwitchOn()
+	hw := func() {
+		m.HW()
+		ref.Tick()
+	}
+	// idle to the chosen line, D cycles before the chosen tick of its mode 2
+	for n := ref.c13StepsTo(c.Line, c.Tick-c.D); n > 0; n-- {
+		hw()
+	}
+	m.Mp.Write(0xff46, 0xd1)
+	for i := 0; i < c.D; i++ {
+		hw()
+	}
+	regs := c17Regs(c17Step{Op: c.Op, P: c.P, V: 0x1234}, 0xc000)
+	m.CPU.VerifSet(cpu.VerifRegs{A: regs.A, B: regs.B, C: regs.C, D: regs.D, E: regs.E, F: regs.F, H: regs.H, L: regs.L, SP: regs.SP, PC: regs.PC})
+	for i := 0; i < 2; i++ {
+		m.CPU.ExecuteMachineCycle()
+		hw()
+	}
+	if c.After == "off" {
+		m.Mp.Write(0xff40, 0x11)
+		ref.SwitchOff()
+	}
+	for i := 0; i < 400; i++ { // the CPU spins in JR -2 at C001; the transfer ends after 162 cycles
+		m.CPU.ExecuteMachineCycle()
+		hw()
+	}
+	if ref.On {
+		m.Mp.Write(0xff40, 0x11)
+	}
+	bad, first := 0, -1
+	for i := range src {
+		if m.Mp.Read(0xfe00+uint16(i)) != src[i] {
+			bad++
+			if first < 0 {
+				first = i
+			}
+		}
+	}
+	if bad > 0 {
+		return "oam-altered-after-transfer", fmt.Errorf("opcode %02x with its pair at %04x started in cycle %d of mode 2 on line %d, %d cycles after a DMA transfer began (LCD afterwards %s): 400 cycles later %d OAM byte(s) differ from the transfer's source, first OAM[%d] = %02x, source %02x",
+			c.Op, c.P, c.Tick, c.Line, c.D, c.After, bad, first, m.Mp.Read(0xfe00+uint16(first)), src[first])
+	}
+	return "", nil
+}
+
+func init() {
+	vf.RegisterReplay("C17/oam-early-dma", func(raw json.RawMessage) (string, error) {
+		var c c17Early
+		if err := json.Unmarshal(raw, &c); err != nil {
+			return "", err
+		}
+		return c17RunEarly(c)
+	})
+}
+
 // Two check names (same executor): the LCD-off and the LCD-on campaigns each
 // keep their own minimal failing case.
 func init() {
@@ -561,6 +670,9 @@ func c17Classify(c *vf.Collector, cas *c17Case) bool {
 	plan, _, _ := c17Schedule(cas)
 	if cas.DMA > 0 {
 		c.Class("transfer-in-flight", 1)
+	}
+	if len(cas.Regs) > 0 {
+		c.Class("off/lcd-register-stores-after-switch-off", 1)
 	}
 	if cas.Scen == "off" {
 		if cas.RunOn < 0 {
@@ -661,10 +773,48 @@ func TestC17(t *testing.T) {
 		c.Exhaustive(fmt.Sprintf("LCD switched off at power-on, at each of the 113 instants of the first line after switch-on and at each of the 114 cycles of %d steady-state line(s), followed by a seeded 16-instruction program (partitioned across shards)", len(lines)))
 	})
 
+	// A pointer instruction executed in mode 2 while a DMA transfer has only just begun: whatever the OAM bug
+	// does to the row being scanned is overwritten by the rest of the transfer, so OAM must equal the source in
+	// the end - unless something was left pending and fires after the transfer, outside mode 2.
+	c.Sub("mode2-during-early-dma", func(t *testing.T) {
+		var n int64
+		idx := 0
+		for _, op := range []uint8{0x03, 0x13, 0x23, 0x33, 0x0b, 0x1b, 0x2b, 0x3b} {
+			for tick := 5; tick <= 18; tick++ { // machine cycle of mode 2 in which the instruction starts (row scanned = tick)
+				for d := 1; d <= 5; d++ { // cycles between the FF46 write and the instruction
+					for _, after := range []string{"on", "off"} {
+						idx++
+						if !c.Env.Mine(idx) {
+							continue
+						}
+						cas := c17Early{Op: op, Tick: tick, D: d, After: after, P: uint16(0xfe00 + (idx*37)%0xa0), Line: 1 + idx%140}
+						sig, err := c17RunEarly(cas)
+						n++
+						if idx%97 == 0 {
+							c.Sample("mode2-during-early-dma", cas)
+						}
+						if err != nil {
+							if known, first := c.FailFirst("oam-early-dma", sig, err.Error(), cas); !known && first {
+								t.Errorf("%v", err)
+							}
+						}
+					}
+				}
+			}
+		}
+		c.Bulk("mode2-during-early-dma", n, n)
+		c.Exhaustive("16-bit INC/DEC of BC, DE, HL, SP with the pair in OAM, started in cycle 5-18 of a mode 2, 1-5 cycles after a DMA transfer was started, the LCD then left on or switched off; OAM compared with the transfer's source 400 cycles later")
+	})
+
 	c.Rapid("lcd-off", 16000, 600000, func(rt *rapid.T) {
 		cas := c17Case{Scen: "off", RunOn: c17RunOnGen(rt), OAM: c17OAMGen.Draw(rt, "oam"), Steps: rapid.SliceOfN(c17StepGen, 1, 40).Draw(rt, "steps")}
 		for i := range cas.Steps {
 			cas.Steps[i].Skip = 0
+		}
+		if rapid.IntRange(0, 2).Draw(rt, "regs") == 0 {
+			cas.Regs = rapid.SliceOfN(rapid.Custom(func(rt *rapid.T) cpuPoke {
+				return cpuPoke{rapid.SampledFrom([]uint16{0xff44, 0xff44, 0xff41, 0xff45, 0xff42, 0xff43, 0xff47, 0xff48, 0xff49, 0xff4a, 0xff4b}).Draw(rt, "ra"), rapid.Byte().Draw(rt, "rv")}
+			}), 1, 4).Draw(rt, "regstores")
 		}
 		c17MaybeDMA(rt, &cas)
 		nt := c17Classify(c, &cas)
